@@ -159,7 +159,7 @@ def gen_cases(prop, tier, rng):
         # ~15 % sessions with the REAL stock dialogs of render/adv_widgets.py (YesNoDialog as quit dialog, ...): 7-element cases,
         # the model runs on the specs of coq/theories/AdvWidgets.v (harness/adv_specs.py, checks/adv_corr.py)
         for k in range(n // 4):
-            cases.append(screen_gen.gen_adv_case(rng, with_password=(k % 3 == 0)))      # PasswordDialog: an answer that is neither True, False nor None
+            cases.append(screen_gen.gen_adv_case(rng, with_error=True, with_password=(k % 3 == 0)))      # PasswordDialog: an answer that is neither True, False nor None
     return cases
 
 
